@@ -9,6 +9,8 @@
   4 snapshot    PipeFunc.__call__ records ErrorSnapshot(self.func, e, args, kwargs) with the very objects used for the
                 call and re-raises; reproduce() replays them; save/load are a cloudpickle pair; Pipeline exposes it
   5 pool        the default process pool is created in a `with` (always shut down)
+  7 iterator    no user-reaching call is driven by map()/filter()/generator expressions (StopIteration would be swallowed / converted)
+  6 release     a context manager that starts a thread in __enter__ signals/joins it on every path through __exit__
 """
 
 from __future__ import annotations
@@ -252,6 +254,38 @@ def rule_snapshot(ctx: Ctx) -> None:
         risky = [c for st in tr.handlers[0].body for c in ast.walk(st) if isinstance(c, ast.Call) and dotted(c.func) in ("warnings.warn", "warn", "warnings.warn_explicit")]
         ctx.add("4-snapshot", call, risky[0] if risky else tr.handlers[0], not risky, "the handler only prints, records and re-raises" if not risky else
                 f"`{norm(risky[0])[:50]}` in the failure handler raises when warnings are errors: the caller receives the Warning instead of the user function's exception and no snapshot is recorded", key="handler-cannot-raise")
+    # ... nor can the construction of the snapshot itself: the default factories of its fields run inside the handler, and the ones
+    # that ask the environment (sockets) fail on machines without a route / resolver - they must absorb every OSError themselves
+    es_cls = P.cls("pipefunc._pipefunc.ErrorSnapshot")
+    factories = []
+    for st in es_cls.node.body:
+        if isinstance(st, ast.AnnAssign) and isinstance(st.value, ast.Call):
+            for k in st.value.keywords:
+                if k.arg == "default_factory" and isinstance(k.value, ast.Name):
+                    q = P.resolve_name(es_cls.module, k.value.id, None)
+                    if q in P.functions:
+                        factories.append(P.functions[q])
+    n_env = 0
+    for f_ in factories:
+        par_f = _parents(f_.node)
+        for c in ast.walk(f_.node):
+            if not (isinstance(c, ast.Call) and (dotted(c.func).startswith("socket.") or (isinstance(c.func, ast.Attribute) and c.func.attr in ("connect", "getsockname", "bind", "gethostbyname")))):
+                continue
+            n_env += 1
+            types: set[str] = set()
+            x: ast.AST = c
+            while id(x) in par_f:
+                child, x = x, par_f[id(x)]
+                if isinstance(x, ast.Try) and any(child is s_ or any(child is d_ for d_ in ast.walk(s_)) for s_ in x.body):
+                    for h_ in x.handlers:
+                        if not any(isinstance(r_, ast.Raise) for r_ in ast.walk(h_)):
+                            types |= _handler_types(h_)
+            covered = bool(types & (BROAD | {"OSError", "socket.error", "IOError", "EnvironmentError"}))
+            ctx.tri("4-snapshot", f_, c, covered, not covered, f"`{norm(c)[:40]}` in {f_.name} (a default factory of ErrorSnapshot, run inside the failure handler) cannot raise out of it",
+                    f"`{norm(c)[:40]}` in {f_.name} runs inside the failure handler (default factory of an ErrorSnapshot field) and only {sorted(types) or 'nothing'} is caught around it: on a machine without a network route it raises OSError, "
+                    "which replaces the user function's exception and no snapshot is recorded", "", key=f"factory-cannot-raise {f_.name} {norm(c.func)[:30]}")
+    if factories:
+        ctx.floor("4-snapshot.factory-env-calls", n_env, 1)
     _snapshot_rest(ctx)
 
 
@@ -328,8 +362,74 @@ def rule_pool(ctx: Ctx) -> None:
         ctx.add("5-pool", f, w[0] if w else f.node, ok, "the generation loop runs inside `with _maybe_executor(...)`" if ok else "the generation loop is outside the executor context manager", key="loop-in-with")
 
 
+def rule_release(ctx: Ctx) -> None:
+    """A context manager of the package that starts a thread in __enter__ stops it on EVERY path through __exit__ - also when an
+    exception is passing (exc_type is not None).  A path that leaves __exit__ without signalling/joining the thread leaves a
+    non-daemon thread running: a process-pool worker then never exits and the failing map() hangs in the pool shutdown instead
+    of returning the user's exception."""
+    P = ctx.prog
+    n = 0
+    for cls in P.classes.values():
+        en, ex = cls.methods.get("__enter__"), cls.methods.get("__exit__")
+        if en is None or ex is None:
+            continue
+        starts = [c for c in ast.walk(en.node) if isinstance(c, ast.Call) and isinstance(c.func, ast.Attribute) and c.func.attr == "start" and not c.args]
+        threads = [c for c in ast.walk(en.node) if isinstance(c, ast.Call) and dotted(c.func).rsplit(".", 1)[-1] in ("Thread", "Timer", "Process")]
+        if not starts or not threads:
+            continue
+        n += 1
+        cfg = ctx.cfg(ex)
+        stops = set(cfg.nodes(lambda s_: not isinstance(s_, (ast.If, ast.For, ast.While, ast.Try, ast.With)) and any(
+            isinstance(c, ast.Call) and isinstance(c.func, ast.Attribute) and c.func.attr in ("set", "join", "cancel") and norm(c.func.value).startswith("self.") for c in ast.walk(s_))))
+        if not stops:
+            ctx.add("6-release", ex, ex.node, None, f"UNDECIDED: how {cls.name}.__exit__ stops the thread started in __enter__ (no self.<x>.set()/join()/cancel() statement)", key=f"release {cls.name}")
+            continue
+        ok = cfg.must_pass(ENTRY, EXIT, stops, normal_only=True)
+        w = None if ok else cfg.witness_path(ENTRY, EXIT, stops)
+        rets = [cfg.stmt[x] for x in (w or []) if isinstance(cfg.stmt.get(x), ast.Return)]
+        ctx.add("6-release", ex, rets[0] if rets else ex.node, ok, f"every path through {cls.name}.__exit__ signals/joins the thread started in __enter__" if ok else
+                f"{cls.name}.__exit__ can return without stopping the thread started in __enter__ ({'; '.join(cfg.describe(w, ex.module.relpath))[:160] if w else ''}): the measuring thread keeps the worker process alive, "
+                "a failing parallel map hangs in the pool shutdown instead of raising the user's exception", key=f"release {cls.name}")
+    ctx.floor("6-release", n, 1)
+
+
+def rule_iterator_protocol(ctx: Ctx) -> None:
+    """A call that can reach a user function is never driven by the iterator protocol.  `list(map(f, xs))` treats a StopIteration
+    raised inside f as the end of the iteration (the map silently returns truncated results and later generations run); a
+    generator expression turns it into RuntimeError (PEP 479).  Either way the user's exception does not surface unchanged.
+    List / set / dict comprehensions and plain loops propagate it, so those are the accepted forms."""
+    from ..flow import callable_targets
+
+    P, eff = ctx.prog, ctx.effects
+    n = 0
+    for mn in ("pipefunc.map._run", "pipefunc.map.adaptive", "pipefunc._pipeline._base", "pipefunc.map._prepare"):
+        for fn in P.functions_in(mn):
+            shadow = {a.arg for a in ast.walk(fn.node) if isinstance(a, ast.arg)} | {t.id for x in ast.walk(fn.node) if isinstance(x, ast.Assign) for t in x.targets if isinstance(t, ast.Name)}
+            for c in walk_no_nested(fn.node):
+                drivers: list[tuple[ast.AST, ast.AST, str]] = []
+                if isinstance(c, ast.Call) and isinstance(c.func, ast.Name) and c.func.id in ("map", "filter") and c.func.id not in shadow and c.args:
+                    drivers.append((c, c.args[0], f"`{c.func.id}(...)`"))
+                elif isinstance(c, ast.GeneratorExp):
+                    for inner in ast.walk(c.elt):
+                        if isinstance(inner, ast.Call):
+                            drivers.append((c, inner.func, "a generator expression"))
+                for node_, callee_expr, how in drivers:
+                    tg = callable_targets(ctx, fn, callee_expr)
+                    user = [t for t in tg if eff.has(t.qualname, USER_CALL)]
+                    if not tg and isinstance(callee_expr, ast.Name) and callee_expr.id in fn.param_names() and how.startswith("`"):
+                        n += 1
+                        ctx.add("7-iterator", fn, node_, None, f"UNDECIDED: `{norm(node_)[:50]}` drives a callable parameter whose targets could not be resolved through the iterator protocol", key=f"iterator {fn.name} {norm(callee_expr)[:30]}")
+                        continue
+                    if not user:
+                        continue
+                    n += 1
+                    ctx.add("7-iterator", fn, node_, False, f"`{norm(node_)[:60]}` drives {user[0].name} (which reaches a user function) through {how}: a StopIteration raised by the user function is taken for the end of the "
+                            "iteration / converted to RuntimeError - the map returns truncated results or a different exception type instead of re-raising the user's exception", key=f"iterator {fn.name} {norm(callee_expr)[:30]}")
+    ctx.add("7-iterator", "pipefunc.map._run", "", True, f"no user-reaching call is driven by map()/filter()/a generator expression in the execution modules ({n} candidate site(s) examined)", key="iterator-scan")
+
+
 def check(ctx: Ctx) -> None:
-    for rule in (rule_wrapped, rule_noreturn, rule_no_swallow, rule_snapshot, rule_pool):
+    for rule in (rule_wrapped, rule_noreturn, rule_no_swallow, rule_snapshot, rule_pool, rule_release, rule_iterator_protocol):
         ctx.run(rule)
 
 
@@ -352,6 +452,8 @@ MUTANTS = [
     Mutant("snapshot-no-reraise", PF, "                self.error_snapshot = ErrorSnapshot(self.func, e, args, kwargs)\n                raise\n", "                self.error_snapshot = ErrorSnapshot(self.func, e, args, kwargs)\n                result = None\n", ("C13.4-snapshot", "C13.3-no-swallow")),
     Mutant("reproduce-kwargs-only", PF, "return self.function(*self.args, **self.kwargs)", "return self.function(**self.kwargs)", ("C13.4-snapshot",)),
     Mutant("pool-not-in-with", R, "        with ProcessPoolExecutor() as new_executor:  # shuts down the executor after use\n            yield {\"\": new_executor}\n", "        new_executor = ProcessPoolExecutor()\n        yield {\"\": new_executor}\n", ("C13.5-pool",)),
+    Mutant("profiler-exit-early-on-error", "pipefunc/_profile.py", "        assert self.start_time is not None\n        self.stop_event.set()\n", "        assert self.start_time is not None\n        if exc_type is not None:\n            return\n        self.stop_event.set()\n", ("C13.6-release",), why="round-4 seed C13/11"),
+    Mutant("element-loop-via-builtin-map", R, "    return [process_index(i) for i in indices]\n", "    return list(map(process_index, indices))\n", ("C13.7-iterator",), why="round-4 seed C13/10"),
     Mutant("twin-compute-fn-comment", R, "            handle_error(e, func, selected)\n            # handle_error raises but mypy doesn't know that\n", "            handle_error(e, func, selected)\n", twin=True),
     Mutant("twin-handle-error-local", U, "    msg = f\"Error occurred while executing function `{call_str}`.\"\n", "    msg = f\"Error occurred while executing function `{call_str}`.\"  # note\n", twin=True),
 ]
